@@ -216,3 +216,24 @@ func CurrentLabel() string {
 	}
 	return ""
 }
+
+// LiveTasks returns the spawn tokens of instrumented goroutines that have begun and
+// not ended (diagnostics for leak reports).
+func (s *Sim) LiveTasks() []Token {
+	s.mu.Lock()
+	defer s.mu.Unlock()
+	out := make([]Token, 0, len(s.tasks))
+	for _, t := range s.tasks {
+		out = append(out, t.tok)
+	}
+	sort.Slice(out, func(i, j int) bool {
+		if out[i].Label != out[j].Label {
+			return out[i].Label < out[j].Label
+		}
+		if out[i].Site != out[j].Site {
+			return out[i].Site < out[j].Site
+		}
+		return out[i].N < out[j].N
+	})
+	return out
+}
